@@ -14,7 +14,11 @@ Clauses
   C19.unsupported-accepted a construct documented as unsupported is not refused
   C19.source-resolve       extern(i) with i outside 0..n-1 resolves to some file
   C19.command              the command object built from a (SPSDK-parsed) statement dictionary has
-                           the wrong header field / payload, or a supported statement has no command
+                           the wrong header field / payload, or a supported statement has no command;
+                           encrypt / keywrap use the key blob with the stated NUMBER (unwrap / read-back
+                           through vf/ref/otfad_hw.py), a statement naming an undeclared key blob is
+                           refused, encrypt with ADE or VLD cleared is a plain load of exactly the operand,
+                           with both set the ciphertext of the operand padded to 512 bytes
   C19.keyblob-option       a documented keyblob option has no effect
   C19.sections             load_from_config: number of sections / commands per section
   C19.parser-reuse         a parser object that already parsed other programs answers differently
@@ -461,8 +465,13 @@ def check_case(case: dict, cnt: dict, deep: bool = True) -> list:
                 _count(cnt, "skipped_shift_guard")
                 return viol
     got = run_bd(text, extern)
-    got2 = run_bd(text, extern, shared=True)
-    _count(cnt, "executions", 2)
+    _count(cnt, "executions")
+    # the same program on a parser object that already parsed many others (in the two bulk
+    # families on every 4th program; everywhere else on every program)
+    got2 = got
+    if not case.get("noreuse"):
+        got2 = run_bd(text, extern, shared=True)
+        _count(cnt, "executions")
     if got2 != got:
         viol.append(("C19.parser-reuse", f"{got[0]}-vs-{got2[0]}",
                      f"fresh parser: {fmt(got[1:])}; reused parser: {fmt(got2[1:])}"))
@@ -750,8 +759,9 @@ def _check_encrypted(args: dict, exp: dict, body: bytes, keyblobs: list, blobcls
         c = sem.keyblob_fields(norm(kb)) if isinstance(kb, dict) else None
         if c is None or kb.get("keyblob_id") == exp["keyblob"].get("keyblob_id"):
             continue
+        moved = hw.OtfadHw([_hw_context(dict(c, end=c["end"] | 3))], byte_swap=c["byte_swap"]).read(body, c["start"])
         c = dict(c, start=ctx["start"], end=ctx["end"])  # same region, the other blob's key / counter
-        if reads(c)[:len(data)] == data:
+        if reads(c)[:len(data)] == data or moved[:len(data)] == data:
             return [("C19.command", "encrypt:wrong-keyblob",
                      f"{what}: the data are encrypted with key blob {kb.get('keyblob_id')}, not {exp['keyblob'].get('keyblob_id')}")]
     return [("C19.command", "encrypt:ciphertext", f"{what}: the reference OTFAD model does not read the operand back "
@@ -1495,7 +1505,7 @@ def check_byteswap(case: dict, cnt: dict) -> list:
 
 
 def _strip(case: dict) -> dict:
-    return {k: v for k, v in case.items() if k not in ("tag",)}
+    return {k: v for k, v in case.items() if k not in ("tag", "noreuse")}
 
 
 def run_one(case: dict, cnt: dict) -> list:
@@ -1531,15 +1541,22 @@ def w_task(task: dict) -> dict:
         s = tuple(task["s"])
         g = arith_grammar(*task["G"]) if fam == "arith" else bool_grammar(*task["G"])
         top = ("E" if fam == "arith" else "B", s)
+        nth = 0
         for toks in g.derivations(top, task["n"], task["lo"], task["hi"]):
             m = toks.count("?")
             _count(cnt, "skeletons")
             if fam == "arith":
-                leaves = task.get("leaves") or _arith_scheme(m, s[1], task["n"], tier)
+                if task.get("leaves") == "S3":
+                    leaves = list(itertools.product(S3[:3], repeat=m))
+                else:
+                    leaves = _arith_scheme(m, s[1], task["n"], tier, s[0])
             else:
                 leaves = bool_leaves(m, tier) if not (m >= 4 and s[1] >= 1) else [tuple(x[:m]) for x in BSEQS]
             for lv in leaves:
                 case = {"bd": expr_program(render(toks, lv, task.get("mode", "spaced")))}
+                nth += 1
+                if nth % 4:
+                    case["noreuse"] = True
                 take(run_one(case, cnt), case)
     elif fam == "literals":
         for e in LITERALS:
@@ -1548,11 +1565,15 @@ def w_task(task: dict) -> dict:
                 take(run_one(case, cnt), case)
     elif fam == "contexts":
         g = arith_grammar(1, 1)
+        nth = 0
         for s in ((0, 0), (1, 0), (0, 1)):
             for toks in g.derivations(("E", s), 1):
                 for lv in itertools.product(S_FULL, repeat=toks.count("?")):
                     e = render(toks, lv, "spaced")
                     case = {"bd": CONTEXTS[task["ctx"]](e), "extern": EXTERN4}
+                    nth += 1
+                    if nth % 4:
+                        case["noreuse"] = True
                     take(run_one(case, cnt), case)
     elif fam == "structure":
         g = _W.get("structure") or _W.setdefault("structure", structure_grammar(task["mult"]))
@@ -1569,7 +1590,7 @@ def w_task(task: dict) -> dict:
     return {"viol": list(best.values()), "count": {f"{task.get('label', fam)}|{k}": v for k, v in cnt.items()}}
 
 
-def _arith_scheme(m: int, u: int, n: int, tier: str) -> list:
+def _arith_scheme(m: int, u: int, n: int, tier: str, p: int = 0) -> list:
     if m <= 2 and n <= 2:
         return list(itertools.product(S_FULL, repeat=m))
     if m <= 3 and u == 0:
@@ -1577,6 +1598,8 @@ def _arith_scheme(m: int, u: int, n: int, tier: str) -> list:
     if m <= 2:
         return list(itertools.product(S3, repeat=m))
     seqs = SEQS if (tier == "thorough" and n <= 4) else SEQS[:2]
+    if tier == "quick" and n >= 4 and p >= 1:
+        seqs = SEQS[:1]
     return [tuple(s[:m]) for s in seqs]
 
 
@@ -1610,7 +1633,7 @@ def _plan(tier: str) -> dict:
             "arith_G": (3, 2),
             "bool": {1: [(0, 0, 0), (1, 0, 0), (0, 1, 0), (0, 0, 1)],
                      2: [(0, 0, 0), (1, 0, 0), (2, 0, 0), (0, 1, 0), (1, 1, 0), (0, 2, 0), (0, 0, 1), (1, 0, 1), (0, 1, 1)],
-                     3: [(0, 0, 0), (1, 0, 0), (0, 1, 0), (1, 1, 0), (0, 0, 1), (1, 0, 1), (0, 1, 1), (0, 2, 0)]},
+                     3: [(0, 0, 0), (1, 0, 0), (0, 1, 0), (0, 0, 1), (0, 1, 1), (0, 2, 0)]},
             "bool_G": (2, 2, 1),
             "mult": 2,
         }
@@ -1666,11 +1689,11 @@ def build_tasks(tier: str, seed: int) -> list:
         ga = arith_grammar(*plan["arith_G"])
         for n in (1, 2):
             for s in plan["arith"][n]:
-                lv = None if n == 1 else [tuple(x) for x in itertools.product(S3[:3], repeat=3)]
+                lv = None if n == 1 else "S3"
                 for _n, lo, hi in ga.blocks(("E", s), [n], 400):
                     t = {"fam": "arith", "label": f"arith-{mode}", "n": n, "s": s, "lo": lo, "hi": hi, "G": plan["arith_G"],
                          "mode": mode, "tier": tier}
-                    if n == 2 and s[1] == 0:
+                    if n == 2:
                         t["leaves"] = lv
                     tasks.append(t)
     # big families, smallest size first, arith and bool interleaved by size
@@ -1685,7 +1708,7 @@ def build_tasks(tier: str, seed: int) -> list:
                     continue
                 some = g.unrank(top, n, 0)
                 m = some.count("?")
-                per = len(_arith_scheme(m, s[1], n, tier)) if fam == "arith" else \
+                per = len(_arith_scheme(m, s[1], n, tier, s[0])) if fam == "arith" else \
                     (len(bool_leaves(m, tier)) if not (m >= 4 and s[1] >= 1) else len(BSEQS))
                 block = max(1, 12000 // per)
                 for _n, lo, hi in g.blocks(top, [n], block):
@@ -1712,7 +1735,11 @@ def run(ctx: core.Ctx) -> None:
         "form; pre-section blocks in every order with multiplicity <= 2 (7365 sequences); 12 layouts x definition-kind "
         "pairs x 5 block kinds; every statement form x 7 operand sets, all ordered pairs, triples of representatives, "
         "1..3 sections x 0..3 statements x 4 id schemes, each also through SB21Helper (command header + payload) and one per "
-        "statement form through BootImageV21.load_from_config; every construct documented as unsupported. "
+        "statement form through BootImageV21.parse_sb21_config -> load_from_config; every order of 1..3 `keyblob (N)` blocks "
+        "with distinct numbers from {0,1,2,3} (out of order, gaps, not starting at 0), each declared number used by an "
+        "encrypt and a keywrap statement and one undeclared number (must be refused), verified by unwrapping / reading "
+        "back through the OTFAD reference model; encrypt with the ADE/VLD bits of the blob's end in all four combinations "
+        "x payload lengths {4,100,511,512,513} x file/blob; every construct documented as unsupported. "
         "distinct_nontrivial = programs (distinct texts) on which the semantics defines the result and a comparison took "
         "place (excluded: convention differences, outside subset, refused by SPSDK)")
     done_sizes: dict = {}
@@ -1779,6 +1806,10 @@ def run(ctx: core.Ctx) -> None:
         "blob bytes are loaded in written order; fuse/ifr words are little-endian; memory-id flag encoding: calibrated on "
         "the elftosb-generated golden files tests/nxpimage/data/sb_sources/SB_files/legacy_real_example*.sb",
         "fill pattern replication for 1- and 2-byte patterns and the length of a fill without a range are not judged",
+        "encrypt ciphertext is judged where the load address is the start of the key blob's region (counter base = address); "
+        "the end field of a wrapped key blob is compared by its 1 KiB granule only (elftosb golden: flags are forced to ADE|VLD)",
+        "the shared-parser re-run (C19.parser-reuse) covers every program of the small families and every 4th program of the "
+        "arith / bool / contexts families",
         "VERIF_SEED only changes the content of the data files loaded by `load`",
     ]
 
